@@ -195,7 +195,7 @@ pub fn gen_soak(t: &mut Tape, tier: Tier) -> Option<Soak> {
             pool[b].externals.insert(pos, v);
         }
     }
-    let rounds = t.range(tier.pick(20_000, 100_000), tier.pick(200_000, 1_000_000));
+    let rounds = t.range(tier.pick(20_000, 50_000), tier.pick(200_000, 400_000));
     // period 10^9 = built in round 0 only: everything it left behind ages for the rest of the history
     let periods: Vec<usize> = (0..pool.len()).map(|i| if i == 0 { 1 } else { *t.pick(&[1usize, 1, 2, 7, 64, 4096, 1_000_000_000, 1_000_000_000]) }).collect();
     Some(Soak { pool, rounds, periods })
